@@ -620,9 +620,9 @@ var c04Gaps = []string{" ", "", "\t\n "}
 func TestVerifC04(t *testing.T) {
 	r := vNewReport("C04")
 	defer r.Write(t)
-	n, m, gapN, e2eN := 5, 5, 3, 2
+	n, m, gapN, e2eN, sentN := 5, 5, 3, 2, 7
 	if vThorough() {
-		n, m, gapN, e2eN = 6, 6, 4, 3
+		n, m, gapN, e2eN, sentN = 6, 6, 4, 3, 8
 	}
 	r.Bounds["token_sequence_length"] = n
 	r.Bounds["char_string_length"] = m
@@ -816,6 +816,35 @@ func TestVerifC04(t *testing.T) {
 			}
 		}
 	}
+	// (f) sentences by derivation size: every expression tree with at most sentN nodes over {variable,
+	// number, !, .p, .*, &&, ||, ==, index, call with 0-3 arguments}, each variable named after its
+	// position so that any mix-up of operands or arguments shows in the tree
+	sents := c04Sentences(sentN)
+	r.Bounds["sentence_nodes_up_to"] = sentN
+	for _, sz := range sents {
+		for _, tmpl := range sz {
+			idx++
+			if !r.Mine(idx) {
+				continue
+			}
+			if idx%(1<<14) == 0 && r.Expired() {
+				return
+			}
+			n := 0
+			var b strings.Builder
+			for _, c := range tmpl.s {
+				if c == '§' {
+					fmt.Fprintf(&b, "v%d", n)
+					n++
+				} else {
+					b.WriteRune(c)
+				}
+			}
+			src := b.String() + " }}"
+			r.Begin(func() string { return fmt.Sprintf("sentence %q", src) })
+			c04Compare(r, src)
+		}
+	}
 	// (b) character strings
 	kc := int64(len(c04Chars))
 	buf := make([]byte, 0, m+2)
@@ -882,4 +911,78 @@ func TestVerifC04(t *testing.T) {
 	for _, s := range []string{"2147483647", "2147483648", "-2147483648", "-2147483649", "0x7fffffff", "0x80000000", "0xFFFFFFFF", "4294967296", "9223372036854775807", "9223372036854775808", "-9223372036854775808", "-9223372036854775809", "0x7fffffffffffffff", "0x8000000000000000"} {
 		c04Compare(r, s+"}}")
 	}
+}
+
+// c04Sent is a sentence template: § stands for a variable (numbered by position afterwards);
+// tight reports whether it can be an operand of a postfix operator / of ! without parentheses.
+type c04Sent struct {
+	s     string
+	tight bool
+	op    string // top-level binary operator, if any
+}
+
+// c04Sentences returns, by node count 1..n, every sentence built from variables, the number 1,
+// !x, x.p, x.*, x && y, x || y, x == y, x[y] and calls with 0-3 arguments. Operands that are not
+// tight are parenthesised, so the rendered text has exactly the generated structure.
+func c04Sentences(n int) [][]c04Sent {
+	by := make([][]c04Sent, n+1)
+	par := func(t c04Sent) string {
+		if t.tight {
+			return t.s
+		}
+		return "(" + t.s + ")"
+	}
+	for sz := 1; sz <= n; sz++ {
+		var out []c04Sent
+		if sz == 1 {
+			out = append(out, c04Sent{"§", true, ""}, c04Sent{"1", true, ""}, c04Sent{"Fn()", true, ""})
+		}
+		// unary over sz-1
+		if sz >= 2 {
+			for _, t := range by[sz-1] {
+				out = append(out, c04Sent{"!" + par(t), false, ""})
+				if t.s != "1" {
+					out = append(out, c04Sent{par(t) + ".p", true, ""}, c04Sent{par(t) + ".*", true, ""})
+				}
+				out = append(out, c04Sent{"Fn(" + t.s + ")", true, ""})
+			}
+		}
+		// binary: 1 + a + b = sz
+		for a := 1; a+1 < sz; a++ {
+			b := sz - 1 - a
+			for _, l := range by[a] {
+				for _, rr := range by[b] {
+					// (a chain of one operator is compared as a chain: a parenthesised operand with the
+					// same operator would not be distinguishable in that normal form, so it is left out)
+					for _, op := range []string{"&&", "||", "=="} {
+						if l.op != op && rr.op != op {
+							out = append(out, c04Sent{par(l) + " " + op + " " + par(rr), false, op})
+						}
+					}
+					if l.s != "1" {
+						out = append(out, c04Sent{par(l) + "[" + rr.s + "]", true, ""})
+					}
+					out = append(out, c04Sent{"Fn(" + l.s + ", " + rr.s + ")", true, ""})
+				}
+			}
+		}
+		// call with three arguments: 1 + a + b + c = sz
+		for a := 1; a+2 < sz; a++ {
+			for b := 1; a+b+1 < sz; b++ {
+				c := sz - 1 - a - b
+				if c < 1 {
+					continue
+				}
+				for _, x := range by[a] {
+					for _, y := range by[b] {
+						for _, z := range by[c] {
+							out = append(out, c04Sent{"Fn(" + x.s + ", " + y.s + ", " + z.s + ")", true, ""})
+						}
+					}
+				}
+			}
+		}
+		by[sz] = out
+	}
+	return by[1:]
 }
